@@ -1014,7 +1014,7 @@ func main() {
 		}
 		r.Require(grew > 0 && shrank > 0 && repowered > 0, fmt.Sprintf("validator-set updates not exercised by blocks: grew=%d shrank=%d repowered=%d", grew, shrank, repowered))
 		r.Require(pDiffers > 0, "the proposer never built a block different from the enumerated one")
-		r.Require(len(appHashes) > len(jobs)/4, "too few distinct application hashes: the templates do not change state")
+		r.Require(len(appHashes) >= 100, fmt.Sprintf("only %d distinct application hashes: the templates do not change state", len(appHashes)))
 	}
 	r.Finish()
 }
